@@ -122,7 +122,8 @@ theorem declare_order_irrelevant (tbl : List OptSpec) (ps : List Parser) (d d' :
       | error e => rw [declare_err h]
     rw [e1 d hok, e1 d' hok']
 
-/-- **The driver's one-pass registration is the code's loop.** In every state reached by declarations,
+/-- **The driver's one-pass registration is the code-shaped loop** (a statement about two Lean definitions;
+that the code-shaped one is the Python loop rests on the correspondence). In every state reached by declarations,
 declaring one more command with all parents handled at once (`declare`, what is executed and what the
 theorems are about) gives the same result — success or `AssertionError`, names, dependents — as the loop of
 `_init_multicmd_parser`: parent by parent, each time every parser that lists the parent, with the
@@ -225,24 +226,34 @@ theorem command_dispatch {nl dflt ds adds st} (hr : Reach nl dflt ds adds st) {q
       | .ok sub => post (mergeNs [(command, .str q.name)] sub) :=
   dispatch_reach hr hq hpub h1 h2 rest
 
-/-- **Accepted.** `[cmd, option]` is parsed whenever the option string is in the command's table as a
-flag, and the flag's attribute is `True` in the namespace; a value option followed by a word is parsed
-and the attribute is that word. (`finishable`: the command has no positional that must be given.) -/
+/-- **Accepted (one direction, one option per command line).** If the option string `s` is in the table of
+a public command without required arguments (`finishable`) then, by the kind of its spec:
+`store_true` — `[cmd, s]` is parsed and the attribute is `True`; `store_false` — `False`;
+`store_const` — the constant; `count` whose attribute starts at a number `n` — `n+1`;
+a value option — `[cmd, s, w]` is parsed for every plain word `w` and the attribute is `w`.
+(The attribute must not be `color`/`no_color` nor the name of a positional of the command.) -/
 theorem parse_accepts {nl dflt ds adds st} (hr : Reach nl dflt ds adds st) {q : Parser} (hq : q ∈ st.parsers)
     (hpub : q.internal = false) (h1 : q.name ≠ hShort) (h2 : q.name ≠ hLong) (hfin : finishable q.opts = true)
     {s : Name} {o : OptSpec} (hs : s.head? = some '-') (hsd : s ≠ dd) (hf : findOpt q.opts s = some o)
     (hd : destOf o ≠ color ∧ destOf o ≠ noColor ∧ ∀ o' ∈ posSpecs q.opts, destOf o' ≠ destOf o) :
     (o.kind = .flag → ∃ ns, parseArgs cfg st [q.name, s] = .ok ns ∧ ns.get (destOf o) = some (.bool true)) ∧
+    (o.kind = .flagOff → ∃ ns, parseArgs cfg st [q.name, s] = .ok ns ∧ ns.get (destOf o) = some (.bool false)) ∧
+    (∀ v, o.kind = .const v → ∃ ns, parseArgs cfg st [q.name, s] = .ok ns ∧ ns.get (destOf o) = some (.str v)) ∧
+    (∀ n, o.kind = .count → (defaults q.opts []).get (destOf o) = some (.nat n) →
+      ∃ ns, parseArgs cfg st [q.name, s] = .ok ns ∧ ns.get (destOf o) = some (.nat (n + 1))) ∧
     (o.kind = .value → ∀ w, w ≠ dd → classify q.opts w = .word →
       ∃ ns, parseArgs cfg st [q.name, s, w] = .ok ns ∧ ns.get (destOf o) = some (.str w)) := by
   have hc := classify_exact hs hf
-  constructor
-  · intro hk
-    obtain ⟨ns, h, _, hv⟩ := parse_single hr hq hpub h1 h2 (runParser_flag hfin hsd hc hk)
+  have fin : ∀ {rest : List Name} {v : Val}, SingleOk q rest o v →
+      ∃ ns, parseArgs cfg st (q.name :: rest) = .ok ns ∧ ns.get (destOf o) = some v := by
+    intro rest v hso
+    obtain ⟨ns, h, _, hv⟩ := parse_single hr hq hpub h1 h2 hso
     exact ⟨ns, h, hv hd.1 hd.2.1 hd.2.2⟩
-  · intro hk w hw hcw
-    obtain ⟨ns, h, _, hv⟩ := parse_single hr hq hpub h1 h2 (runParser_value hfin hsd hc hk hw hcw)
-    exact ⟨ns, h, hv hd.1 hd.2.1 hd.2.2⟩
+  exact ⟨fun hk => fin (runParser_flag hfin hsd hc hk),
+    fun hk => fin (runParser_flagOff hfin hsd hc hk),
+    fun v hk => fin (runParser_const hfin hsd hc hk),
+    fun n hk hdn => fin (runParser_count hfin hsd hc hk hdn),
+    fun hk w hw hcw => fin (runParser_value hfin hsd hc hk hw hcw)⟩
 
 /-- **Rejected.** `[cmd, --option]` ends in `SystemExit(2)` whenever no option string of the command's
 table starts with `--option` (argparse would otherwise read it as an abbreviation, see `abbrev_unique`). -/
